@@ -41,6 +41,7 @@ type c15Op struct {
 	Wrapped     bool        `json:",omitempty"` // the registration goes through grpchan.WithInterceptor(reg, pass-through interceptors)
 	SameHandler bool        `json:",omitempty"` // a duplicate registration passes the handler value that is already registered
 	NilHandler  bool        `json:",omitempty"` // handler is a nil pointer of the right type (stateless implementations; grpc.Server accepts it)
+	NoProbe     bool        `json:",omitempty"` // the description is left exactly as drawn (no probe method added; it may have no methods at all)
 }
 
 type c15Case struct {
@@ -92,17 +93,26 @@ func (op *c15Op) desc() *grpc.ServiceDesc {
 	for _, s := range op.Streams {
 		d.Streams = append(d.Streams, grpc.StreamDesc{StreamName: s.Name, ClientStreams: s.CS, ServerStreams: s.SS, Handler: streamHandler(kBidi)})
 	}
-	// every service can be probed by a call: a method that answers whatever the handler object is
+	if op.NoProbe {
+		return d
+	}
+	// most services can be probed by a call: a method that answers whatever the handler object is
 	d.Methods = append(d.Methods, grpc.MethodDesc{MethodName: c15Probe, Handler: func(srv interface{}, ctx context.Context, dec func(interface{}) error, _ grpc.UnaryServerInterceptor) (interface{}, error) {
 		if err := dec(new(pb.Message)); err != nil {
 			return nil, err
 		}
 		return &pb.Message{Count: 42}, nil
 	}})
+	d.Streams = append(d.Streams, grpc.StreamDesc{StreamName: c15ProbeStream, ClientStreams: true, ServerStreams: true, Handler: func(srv interface{}, stream grpc.ServerStream) error {
+		for stream.RecvMsg(new(pb.Message)) == nil {
+		}
+		return stream.SendMsg(&pb.Message{Count: 43})
+	}})
 	return d
 }
 
 const c15Probe = "VerifProbe"
+const c15ProbeStream = "VerifProbeStream"
 
 type c15Entry struct {
 	desc    *grpc.ServiceDesc
@@ -212,6 +222,7 @@ func propC15History(c c15Case) *Outcome {
 		})}
 	}
 	model := map[string]c15Entry{}
+	noProbe := map[string]bool{}
 	ref := grpc.NewServer() // never served: only its registry is consulted
 	refused := 0
 	check := func(step int) string {
@@ -291,8 +302,39 @@ func propC15History(c c15Case) *Outcome {
 				continue
 			}
 			out := new(pb.Message)
-			err := callConn.Invoke(context.Background(), "/"+op.Name+"/"+c15Probe, &pb.Message{}, out)
 			_, registered := model[op.Name]
+			registered = registered && !noProbe[op.Name]
+			if i%2 == 1 {
+				// through a stream, with a descriptor of the caller's own that (like a generated stub's) names the
+				// method and carries a handler: what runs is what was registered under the name, if anything
+				decoyRan := false
+				cd := &grpc.StreamDesc{StreamName: c15ProbeStream, ClientStreams: true, ServerStreams: true, Handler: func(interface{}, grpc.ServerStream) error {
+					decoyRan = true
+					return nil
+				}}
+				ctx, cancel := context.WithCancel(context.Background())
+				cs, err := callConn.NewStream(ctx, cd, "/"+op.Name+"/"+c15ProbeStream)
+				if err == nil {
+					cs.CloseSend()
+					err = cs.RecvMsg(out)
+					if err == nil {
+						for cs.RecvMsg(new(pb.Message)) == nil {
+						}
+					}
+				}
+				cancel()
+				if decoyRan {
+					return o.failf("%s: step %d: a stream call to %q ran the handler of the caller's own descriptor", c.Target, i, op.Name)
+				}
+				if registered && (err != nil || out.Count != 43) {
+					return o.failf("%s: step %d: service %q is registered, a stream call to it returned %v (response %v)", c.Target, i, op.Name, err, out)
+				}
+				if !registered && err == nil {
+					return o.failf("%s: step %d: service %q has no such stream method registered, a call to it succeeded", c.Target, i, op.Name)
+				}
+				continue
+			}
+			err := callConn.Invoke(context.Background(), "/"+op.Name+"/"+c15Probe, &pb.Message{}, out)
 			if registered && (err != nil || out.Count != 42) {
 				return o.failf("%s: step %d: service %q is registered, a call to it returned %v (response %v)", c.Target, i, op.Name, err, out)
 			}
@@ -362,6 +404,7 @@ func propC15History(c c15Case) *Outcome {
 				return o.failf("%s: step %d: valid registration of %q panicked: %v", c.Target, i, op.Name, panicked)
 			}
 			model[op.Name] = c15Entry{d, h, op.Wrapped}
+			noProbe[op.Name] = op.NoProbe
 			ref.RegisterService(d, h)
 		}
 		if why := check(i); why != "" {
@@ -399,6 +442,7 @@ func genC15(t *rapid.T) c15Case {
 			op.NilHandler = !op.BadHandler && !op.Iface2 && rapid.IntRange(0, 5).Draw(t, "nilhandler") == 0
 			op.Wrapped = rapid.IntRange(0, 3).Draw(t, "wrapped") == 0
 			op.SameHandler = rapid.Bool().Draw(t, "samehandler")
+			op.NoProbe = rapid.IntRange(0, 2).Draw(t, "noprobe") == 0
 		}
 		c.Ops = append(c.Ops, op)
 	}
